@@ -109,6 +109,8 @@ def gen_random(rng, index, tier):
         "pre_profiler": rng.choice(["none", "none", "recorder", "outer"]),
         "block_exit": rng.choice(["normal", "normal", "exception"]),
     }
+    if plan["pre_profiler"] == "recorder" and rng.random() < 0.4:
+        plan["cm_early"] = True          # trace_calls(...) is called before the program installs its own profiler, entered afterwards
     if rng.random() < 0.25:
         plan["real_logger"] = True       # the real CallTraceStoreLogger + SQLiteStore behind the fault tee
     if faults["inspect"] and rng.random() < 0.5:
@@ -277,9 +279,11 @@ def run_once(plan, lp, traced):
             th["t"] = threading.Thread(target=worker, daemon=True)
             th["t"].start()
 
+    early = [None]
+
     def block():
         if traced:
-            with trace_calls(logger, plan["k"], flt, None):
+            with (early[0] if early[0] is not None else trace_calls(logger, plan["k"], flt, None)):
                 obs["tracer"] = sys.getprofile()
                 D.run_top(top)
                 start_worker()
@@ -298,6 +302,9 @@ def run_once(plan, lp, traced):
         try:
             if pre == "recorder":
                 pre_obj = recorder_profiler()
+                if traced and plan.get("cm_early"):
+                    # the session is prepared first and entered later: the profiler in place *when the block is entered* must come back
+                    early[0] = trace_calls(logger, plan["k"], flt, None)
                 sys.setprofile(pre_obj)
                 try:
                     block()
@@ -555,6 +562,8 @@ def execute(plan):
         probes["callable proxy bound to a module global"] = 1
     if plan["prog"].get("global_tw"):
         probes["tripwire objects bound to module globals"] = 1
+    if plan.get("cm_early"):
+        probes["context manager created before, entered after the program installed its profiler"] = 1
     if plan.get("real_logger"):
         probes["real CallTraceStoreLogger + SQLite store behind the fault tee"] = 1
     if B["reset_at"] is not None:
